@@ -26,6 +26,9 @@ pub const T_C09: u32 = 4;
 pub const T_C10: u32 = 8;
 pub const T_C11: u32 = 16;
 pub const T_C20: u32 = 32;
+/// marks failures of oracles that do not depend on the reference model (only on allocator truth and
+/// on the junk/zero pre-fill); the only ones reported once a history continues in degraded mode
+pub const T_ROBUST: u32 = 1 << 31;
 
 pub fn lowest(t: u32) -> u32 {
     t & t.wrapping_neg()
@@ -294,6 +297,9 @@ pub struct Ctx {
     pub enabled: u32,
     /// first step that was skipped on this backend (later states are not comparable across backends)
     pub first_skip: Option<usize>,
+    /// a C09 run continues after an oracle of another property failed: the model no longer describes
+    /// memory, only the model-independent C09 oracles are evaluated from then on
+    pub degraded: bool,
 }
 
 macro_rules! fail {
@@ -371,7 +377,11 @@ impl Ctx {
         for t in self.model.tables() {
             expect.insert(t.frame, t.render());
         }
+        let rb = if self.degraded { T_ROBUST } else { 0 };
         for f in m.materialised() {
+            if self.degraded && self.table_pool.contains(&f) {
+                continue; // what a frame that can be a table holds is the model's business
+            }
             let got = m.snapshot(f);
             let (want, is_table): ([u64; 512], bool) = match expect.get(&f) {
                 Some(r) => (*r, true),
@@ -391,7 +401,7 @@ impl Ctx {
                 let i = (0..512).find(|i| got[*i] != want[*i]).unwrap();
                 let n = (0..512).filter(|i| got[*i] != want[*i]).count();
                 if !is_table {
-                    fail!(T_C09, "step {} ({:?}): physical frame {:#x}, which is not a page table of this hierarchy, was modified: word {} is {:#x}, expected {:#x} ({} words differ)", self.step, self.backend, f, i, got[i], want[i], n);
+                    fail!(T_C09 | rb, "step {} ({:?}): physical frame {:#x}, which is not a page table of this hierarchy, was modified: word {} is {:#x}, expected {:#x} ({} words differ)", self.step, self.backend, f, i, got[i], want[i], n);
                 }
                 if new_tables.contains(&f) && want[i] == 0 && n > 4 {
                     fail!(T_C09, "step {} ({:?}): new page-table frame {:#x} was not zeroed: slot {} holds {:#x} ({} slots differ)", self.step, self.backend, f, i, got[i], n);
@@ -410,6 +420,8 @@ impl Ctx {
         let m = mem();
         let log = std::mem::take(&mut m.log);
         let now = self.model.table_frames();
+        let rb = if self.degraded { T_ROBUST } else { 0 };
+        let allowed_vpages = if self.degraded { None } else { allowed_vpages };
         // (removed, false alarm: an earlier version required the recursive mapper's first access to a
         // frame that became a table in this call to be a write. A zeroing routine that reads each slot
         // and writes only the non-zero ones leaves the table completely zeroed before any entry is
@@ -418,16 +430,19 @@ impl Ctx {
         for a in &log {
             match *a {
                 Access::Pointer(f) => {
-                    if !tables_before.contains(&f) && !now.contains(&f) && !self.alloc.in_use.contains(&f) {
-                        fail!(T_C09, "step {} (Mapped): frame_to_pointer asked for frame {:#x}, which is not a page table of this hierarchy (a data frame or unrelated memory would be dereferenced)", self.step, f);
+                    if !tables_before.contains(&f) && !now.contains(&f) && !self.alloc.in_use.contains(&f) && !(self.degraded && self.table_pool.contains(&f)) {
+                        fail!(T_C09 | rb, "step {} (Mapped): frame_to_pointer asked for frame {:#x}, which is not a page table of this hierarchy (a data frame or unrelated memory would be dereferenced)", self.step, f);
                     }
                 }
                 Access::WindowFault { frame, write } => {
-                    fail!(T_C09, "step {} (Offset): {} physical frame {:#x} through the offset mapping, which is not a page table of this hierarchy", self.step, if write { "wrote" } else { "read" }, frame);
+                    if self.degraded && self.table_pool.contains(&frame) {
+                        continue; // a frame of the table pool that the model-less run cannot classify
+                    }
+                    fail!(T_C09 | rb, "step {} (Offset): {} physical frame {:#x} through the offset mapping, which is not a page table of this hierarchy", self.step, if write { "wrote" } else { "read" }, frame);
                 }
                 Access::Mmu { vpage, frame, write } => {
-                    if !tables_before.contains(&frame) && !now.contains(&frame) && !self.alloc.in_use.contains(&frame) {
-                        fail!(T_C09, "step {} (Recursive): recursive address {:#x} resolved to frame {:#x}, which is not a page table of this hierarchy ({})", self.step, vpage, frame, if write { "write" } else { "read" });
+                    if !tables_before.contains(&frame) && !now.contains(&frame) && !self.alloc.in_use.contains(&frame) && !(self.degraded && self.table_pool.contains(&frame)) {
+                        fail!(T_C09 | rb, "step {} (Recursive): recursive address {:#x} resolved to frame {:#x}, which is not a page table of this hierarchy ({})", self.step, vpage, frame, if write { "write" } else { "read" });
                     }
                     if let Some(al) = allowed_vpages {
                         if !al.contains(&vpage) {
@@ -436,7 +451,7 @@ impl Ctx {
                     }
                 }
                 Access::MmuUnresolved { vaddr } => {
-                    fail!(T_C09, "step {} (Recursive): dereferenced recursive address {:#x} that the MMU cannot resolve (a non-present entry on the walk)", self.step, vaddr);
+                    fail!(T_C09 | rb, "step {} (Recursive): dereferenced recursive address {:#x} that the MMU cannot resolve (a non-present entry on the walk)", self.step, vaddr);
                 }
             }
         }
@@ -483,6 +498,36 @@ where
                 }
             }
             Err(f)
+        }
+    }
+}
+
+/// A step of a history that continues after an oracle of another property has failed (C09 runs only):
+/// the call is made as usual, but since the model no longer describes memory only failures of the
+/// model-independent oracles count - accesses to frames that can never be tables of this hierarchy,
+/// unresolvable recursive addresses, modification of memory outside the table pool.
+fn degraded_step<M>(ctx: &mut Ctx, m: &mut M, op: &MOp) -> Result<(), Fail>
+where
+    M: Mapper<Size4KiB> + Mapper<Size2MiB> + Mapper<Size1GiB> + Translate + CleanUp,
+{
+    let tables_before = ctx.model.table_frames();
+    let strip = |f: Fail| Fail { tag: f.tag & !T_ROBUST, msg: format!("{} [history continued after a failure of another property's oracle]", f.msg) };
+    match step_inner(ctx, m, op, &tables_before) {
+        Ok(()) => Ok(()),
+        Err(f) if f.tag & T_ROBUST != 0 => Err(strip(f)),
+        Err(_) => {
+            // stopped early at a model-based oracle: evaluate the model-independent ones on what is left
+            if let Err(g) = ctx.check_access_log(&tables_before, None) {
+                if g.tag & T_ROBUST != 0 {
+                    return Err(strip(g));
+                }
+            }
+            if let Err(g) = ctx.check_memory(true, &BTreeSet::new()) {
+                if g.tag & T_ROBUST != 0 {
+                    return Err(strip(g));
+                }
+            }
+            Ok(())
         }
     }
 }
@@ -1489,6 +1534,7 @@ pub fn run_backend_opts(case: &MapCase, backend: Backend, enabled: u32, signals:
         freed_any: false,
         enabled,
         first_skip: None,
+        degraded: false,
     };
     let fail = match backend {
         Backend::Mapped => {
@@ -1565,13 +1611,25 @@ where
     M: Mapper<Size4KiB> + Mapper<Size2MiB> + Mapper<Size1GiB> + Translate + CleanUp + Level4,
 {
     let mut had_huge_map = false;
+    let mut foreign: Option<Fail> = None;
     for (i, op) in case.ops.iter().enumerate() {
         ctx.step = i;
-        if let Err(f) = step(ctx, mp, op) {
-            return Some(f);
+        if ctx.degraded {
+            if let Err(f) = degraded_step(ctx, mp, op) {
+                return Some(f);
+            }
+            continue;
         }
         // probes: a rotating subset through the crate, raw walker on all
-        if let Err(f) = probe_step(ctx, mp, i, false) {
+        if let Err(f) = step(ctx, mp, op).and_then(|_| probe_step(ctx, mp, i, false)) {
+            if enabled & T_C09 != 0 && f.tag != 0 && f.tag & enabled == 0 {
+                // a C09 run does not stop at another property's finding: what the remaining calls
+                // touch is still decided (by the model-independent oracles only)
+                ctx.degraded = true;
+                ctx.labels.push("continued-after-foreign-oracle-failure".into());
+                foreign = Some(f);
+                continue;
+            }
             return Some(f);
         }
         if let Some((0, 0, _)) | Some((1, 0, _)) = ctx.shape.last() {
@@ -1584,6 +1642,9 @@ where
         if had_huge_map && ctx.shape.last().map(|s| s.2 == 1).unwrap_or(false) {
             ctx.nontrivial |= T_C01;
         }
+    }
+    if foreign.is_some() {
+        return foreign;
     }
     ctx.step = case.ops.len();
     if let Err(f) = probe_step(ctx, mp, 0, true) {
